@@ -25,5 +25,6 @@ MUTATIONS = [
     ("lys-parse-unsupported", "biomolecule.py", 'if force_field in ["charmm", "peoepb"]:\n                        warn = (key, "neutral")',
      'if force_field in ["charmm", "peoepb", "parse"]:\n                        warn = (key, "neutral")', "fire"),
     ("table-loses-LYN-atom", "dat/AMBER.DAT", "LYN	HZ2", "LYN	HZ9", "fire"),
-    ("producer-keeps-termini", "main.py", 'if row["group_label"].startswith(row["res_name"])', 'if True', "silent"),
+    # terminal rows would then share the key of the residue's own side chain and overwrite it (R4 keys-distinguish-groups)
+    ("producer-keeps-termini", "main.py", 'if row["group_label"].startswith(row["res_name"])', 'if True', "fire"),
 ]
